@@ -89,7 +89,11 @@ func (msc *SCTPConn) SetReadDeadline(t time.Time) error {
 }
 
 func (msc *SCTPConn) SetWriteDeadline(t time.Time) error {
-	if msc.verifBackend() != nil {
+	if be := msc.verifBackend(); be != nil {
+		// a backend may want to see the call (it is a scheduling point of the real socket)
+		if d, ok := be.(interface{ SetWriteDeadline(time.Time) error }); ok {
+			return d.SetWriteDeadline(t)
+		}
 		return nil
 	}
 	return msc.SCTPConn.SetWriteDeadline(t)
